@@ -656,8 +656,10 @@ class SVal:
             r = self.block(st.orelse, r[0], r[1])
         e_body, pc_body = r if r is not None else (None, pc)
         ends = []
+        end_pcs = []
         if e_body is not None:
             ends.append(e_body)
+            end_pcs.append(pc_body)
         for h in st.handlers:
             he = dict(before)
             for k in stored:
@@ -670,6 +672,7 @@ class SVal:
             r = self.block(h.body, he, hpc)
             if r is not None:
                 ends.append(r[0])
+                end_pcs.append(r[1])
         if st.finalbody:
             fe = dict(before)
             for k in stored:
@@ -688,7 +691,7 @@ class SVal:
                 return None
             out = r[0]
         # the statements after a try whose handlers all leave run only when the body completed
-        return out, (pc_body if len(ends) == 1 and e_body is not None else pc)
+        return out, (end_pcs[0] if len(ends) == 1 else pc)
 
     # ------------------------------------------------------------------ expressions
     def ev(self, e, env, pc, record=True):
@@ -729,6 +732,8 @@ class SVal:
         """a module-level name bound to a dict / tuple / list display is that display (so a lookup table may live in the
         function or in the module); any other constant stays a symbol"""
         v = m.consts[name]
+        if isinstance(v, ast.Constant) and isinstance(v.value, (str, bytes)):
+            return const(v.value)       # a named text constant is its text (numeric constants stay symbols: their names matter)
         if isinstance(v, (ast.Dict, ast.Tuple, ast.List, ast.Set)) and not getattr(self, '_in_const', False):
             key = (m.name, name)
             cache = self.prog.__dict__.setdefault('_sval_consts', {})
